@@ -24,17 +24,29 @@ fn history<const K: usize>(rng: &mut Rng, steps: usize) -> String {
     enc::tree_usize(&mut out, &t, false);
     let mut has_root = false;
     let mut next_val = 100;
+    // after a second `add_root` the replaced tree stays in the arena, disconnected (the documented exception): the
+    // operations are then aimed at the nodes of the current tree or at indices that are not stored at all
+    let mut rerooted = false;
     for _ in 0..steps {
-        let live: Vec<usize> = t.node_indices().collect();
+        let live: Vec<usize> = if rerooted { t.dfs_iter().map(|d| d.index).collect() } else { t.node_indices().collect() };
+        let max_idx = t.node_indices().max().unwrap_or(0);
         let pick_idx = |rng: &mut Rng| -> usize {
             if live.is_empty() || rng.chance(1, 8) {
-                rng.below(live.len() + 4) // possibly dead / never used index
+                if rerooted { max_idx + 1 + rng.below(4) } else { rng.below(live.len() + 4) } // possibly dead / never used index
             } else {
                 *rng.pick(&live)
             }
         };
         next_val += 1;
         out.push_str(" ; ");
+        if has_root && t.len() >= 2 && rng.chance(1, 30) {
+            let v = next_val;
+            let idx = t.add_root(v);
+            rerooted = true;
+            write!(out, "root {} | ok {} ", v, idx).unwrap();
+            enc::tree_usize(&mut out, &t, has_root);
+            continue;
+        }
         if !has_root {
             let v = next_val;
             let idx = t.add_root(v);
